@@ -1128,7 +1128,9 @@ func (db *DB) Repair(of Object) (err error) {
 		}
 	}
 
-	return nil
+	// the repaired index must be committed, otherwise
+	// the database is still corrupted at next opening
+	return db.commit(of)
 }
 
 // Close closes gently the DB by flushing any pending async writes
